@@ -442,6 +442,7 @@ AR = "src/hypergraph/runners/async_/runner.py"
 TS = "src/hypergraph/runners/_shared/template_sync.py"
 TY = "src/hypergraph/runners/_shared/types.py"
 VARIANTS = [
+    Variant("gate-that-answered-end-never-ready", HP, replace_once("    # Check if all inputs are available\n    if not _has_all_inputs(node, graph, state):\n        return False\n", "    if state.routing_decisions.get(node.name) is not None and not isinstance(state.routing_decisions.get(node.name), (str, list, bool)):\n        return False\n\n    # Check if all inputs are available\n    if not _has_all_inputs(node, graph, state):\n        return False\n"), {"C04.R4"}),
     Variant("sync-range-plus-one", SR, replace_once("        for _ in range(max_iterations):", "        for _ in range(max_iterations + 1):"), {"C04.R1"}),
     Variant("async-while-true", AR, replace_once("            for _ in range(max_iterations):\n                ready_nodes = get_ready_nodes(graph, state, active_nodes=active_nodes)\n\n                if not ready_nodes:\n                    break  # No more nodes to execute\n", "            while True:\n                ready_nodes = get_ready_nodes(graph, state, active_nodes=active_nodes)\n\n                if not ready_nodes:\n                    break  # No more nodes to execute\n").__call__ and (lambda s: s.replace("            for _ in range(max_iterations):\n                ready_nodes = get_ready_nodes(graph, state, active_nodes=active_nodes)", "            while True:\n                ready_nodes = get_ready_nodes(graph, state, active_nodes=active_nodes)").replace("            else:\n                # Loop completed without break = hit max_iterations\n                if get_ready_nodes(graph, state, active_nodes=active_nodes):\n                    raise ExecutionError(\n                        InfiniteLoopError(max_iterations),\n                        state,\n                    )\n", "")), {"C04.R1"}),
     Variant("sync-bound-rebound", SR, replace_once("        active_nodes = compute_active_node_set(graph)\n\n        for _ in range(max_iterations):", "        active_nodes = compute_active_node_set(graph)\n        max_iterations = max(max_iterations, len(graph._nodes) * 2)\n\n        for _ in range(max_iterations):"), {"C04.R1"}),
